@@ -25,7 +25,7 @@ import (
 
 const stopEnumK = 900
 
-var stopEnumSystems = [...]string{"nbtns.Server/udp", "nbtns.UDPServer/udp", "nbtns.TCPServer/tcp", "llmnr.Server", "llmnr.Client"}
+var stopEnumSystems = [...]string{"nbtns.Server/udp", "nbtns.UDPServer/udp", "nbtns.TCPServer/tcp", "llmnr.Server", "llmnr.Client", "llmnr.Server/handler-registers-handler"}
 
 func StopEnumSize() int64 { return int64(len(stopEnumSystems)) * 2 * stopEnumK }
 
@@ -161,8 +161,16 @@ func runStopEnum(w *rt.World, res *hx.Result, index int64) *hx.Violation {
 		noteSockets()
 		return checkIDs(got)
 
-	case 3:
+	case 3, 5:
+		// system 5: the first query's handler registers one more handler on the running server, from inside the
+		// chain; the client sends its queries one after the other, so that nothing else touches the handler list
+		// at that moment
+		registered := sysIdx != 5
 		respond := llmnr.HandlerFunc(func(s *llmnr.Server, remote net.Addr, wr llmnr.ResponseWriter, msg *llmnr.Message) bool {
+			if !registered {
+				registered = true
+				s.RegisterHandler(llmnr.HandlerFunc(func(*llmnr.Server, net.Addr, llmnr.ResponseWriter, *llmnr.Message) bool { return true }))
+			}
 			if len(msg.Questions) == 1 {
 				resp := llmnr.CreateResponseFromMessage(msg)
 				resp.AddAnswerClassINTypeA(msg.Questions[0].Name, "10.3.0.1")
@@ -191,11 +199,21 @@ func runStopEnum(w *rt.World, res *hx.Result, index int64) *hx.Violation {
 				return
 			}
 			defer c.Close()
+			buf := make([]byte, 2048)
+			if sysIdx == 5 {
+				for i := 0; i < m; i++ {
+					c.WriteToUDP(dnsQuery(idBase+uint16(i), llName(i)), groupAddr)
+					c.SetReadDeadline(simNow().Add(700 * time.Millisecond))
+					if n, _, err := c.ReadFromUDP(buf); err == nil {
+						got = append(got, append([]byte(nil), buf[:n]...))
+					}
+				}
+				return
+			}
 			for i := 0; i < m; i++ {
 				c.WriteToUDP(dnsQuery(idBase+uint16(i), llName(i)), groupAddr)
 			}
 			c.SetReadDeadline(simNow().Add(2 * time.Second))
-			buf := make([]byte, 2048)
 			for len(got) < m {
 				n, _, err := c.ReadFromUDP(buf)
 				if err != nil {
